@@ -671,6 +671,61 @@ func (w *world) oracle(pre, post *snap, bh int64, touched map[int]bool, usTimer,
 			}
 			w.unbondsSeen++
 		}
+		// staked ICX leaves stake+unstaking only through a slot that is due now (never directly)
+		{
+			due := new(big.Int)
+			if usTimer[icutils.ToKey(w.addrs[i])] {
+				for _, u := range pre.A[i].Unstakes {
+					if u.E == bh {
+						due.Add(due, u.V)
+					}
+				}
+			}
+			before := add(pre.A[i].Stake, sumSlots(pre.A[i].Unstakes))
+			after := add(a.Stake, sumSlots(a.Unstakes))
+			if after.Cmp(sub(before, due)) < 0 {
+				w.fail("stake released without waiting in an unstake slot: account %d stake+unstaking went from %s to %s in block %d, slots due: %s",
+					i, before, after, bh, due)
+			}
+		}
+		// bonded ICX leaves bond+unbonding (per P-Rep) only through an unbond that is due now
+		{
+			sumTo := func(s *asnap, dueOnly bool) map[int]*big.Int {
+				m := map[int]*big.Int{}
+				if !dueOnly {
+					for _, b := range s.Bonds {
+						if m[b.To] == nil {
+							m[b.To] = new(big.Int)
+						}
+						m[b.To].Add(m[b.To], b.V)
+					}
+				}
+				for _, u := range s.Unbonds {
+					if dueOnly && u.E != bh {
+						continue
+					}
+					if m[u.To] == nil {
+						m[u.To] = new(big.Int)
+					}
+					m[u.To].Add(m[u.To], u.V)
+				}
+				return m
+			}
+			before, after, due := sumTo(&pre.A[i], false), sumTo(&a, false), sumTo(&pre.A[i], true)
+			for p, b := range before {
+				af, d := after[p], due[p]
+				if af == nil {
+					af = new(big.Int)
+				}
+				if d == nil || !ubTimer[icutils.ToKey(w.addrs[i])] {
+					d = new(big.Int)
+				}
+				if af.Cmp(sub(b, d)) < 0 {
+					w.fail("bond released without waiting in an unbond: account %d bond+unbonding towards P-Rep %d went from %s to %s in block %d, unbonds due: %s",
+						i, p, b, af, bh, d)
+				}
+			}
+		}
 		// exactly-once payment: an account no transaction touched gains exactly the slots due now
 		if !touched[i] {
 			due := new(big.Int)
